@@ -43,6 +43,7 @@ type input struct {
 	Cap    int64    `json:"cap"`    // model parameters (the result does not depend on them)
 	Rchunk int64    `json:"rchunk"`
 	Sched  []int    `json:"sched"`
+	LineNorm bool   `json:"line_normalization"` // the lineNormalization flag of InTotoRun / RunInspections
 }
 
 const pipeBuf = 65536
@@ -149,7 +150,36 @@ func deadline() time.Duration {
 	return 20 * time.Second
 }
 
-func showStream(v interface{}, present bool, s int) string {
+// expectedPrefix returns the first n bytes of what the child's script puts on stream s: the pattern,
+// with the literal segments (O<hex>/E<hex>) at the stream offsets where the script writes them
+func expectedPrefix(script []string, s int, n int) []byte {
+	b := make([]byte, n)
+	pat.Fill(b, s, 0)
+	var off int64
+	open := true
+	for _, t := range script {
+		switch {
+		case t[0] == "oe"[s] && open:
+			k, _ := strconv.ParseInt(t[1:], 10, 64)
+			off += k
+		case t[0] == "OE"[s] && open:
+			lit, _ := hex.DecodeString(t[1:])
+			for i, c := range lit {
+				if off+int64(i) < int64(n) {
+					b[off+int64(i)] = c
+				}
+			}
+			off += int64(len(lit))
+		case t[0] == 'c' && t[1] == "oe"[s]:
+			open = false
+		case t[0] == 'x' || t[0] == 'k':
+			return b
+		}
+	}
+	return b
+}
+
+func showStream(v interface{}, present bool, s int, script []string) string {
 	if !present {
 		return "?"
 	}
@@ -157,13 +187,16 @@ func showStream(v interface{}, present bool, s int) string {
 	if !ok {
 		return fmt.Sprintf("NOTSTRING(%T)", v)
 	}
-	if bad := pat.Check(str, s); bad >= 0 {
-		return fmt.Sprintf("CORRUPT(len=%d,first_bad=%d)", len(str), bad)
+	want := expectedPrefix(script, s, len(str))
+	for i := 0; i < len(str); i++ {
+		if str[i] != want[i] {
+			return fmt.Sprintf("CORRUPT(len=%d,first_bad=%d)", len(str), i)
+		}
 	}
 	return strconv.Itoa(len(str))
 }
 
-func showMap(m map[string]interface{}) string {
+func showMap(m map[string]interface{}, script []string) string {
 	rv := "?"
 	if v, ok := m["return-value"]; ok {
 		switch x := v.(type) {
@@ -181,7 +214,7 @@ func showMap(m map[string]interface{}) string {
 	}
 	o, ook := m["stdout"]
 	e, eok := m["stderr"]
-	return fmt.Sprintf("OK n=%d rv=%s out=%s err=%s", len(m), rv, showStream(o, ook, 0), showStream(e, eok, 1))
+	return fmt.Sprintf("OK n=%d rv=%s out=%s err=%s", len(m), rv, showStream(o, ook, 0, script), showStream(e, eok, 1, script))
 }
 
 func runImpl(in input) string {
@@ -195,7 +228,7 @@ func runImpl(in input) string {
 				name := fmt.Sprintf("c14-insp-%d", atomic.AddInt32(&inspSeq, 1))
 				layout := intoto.Layout{Inspect: []intoto.Inspection{{
 					SupplyChainItem: intoto.SupplyChainItem{Name: name}, Run: args}}}
-				res, err := intoto.RunInspections(layout, dir, false, false)
+				res, err := intoto.RunInspections(layout, dir, in.LineNorm, false)
 				os.Remove(fmt.Sprintf(intoto.LinkNameFormatShort, name)) // dumped into the cwd
 				if err != nil {
 					return "ERR"
@@ -208,9 +241,9 @@ func runImpl(in input) string {
 				if !ok {
 					return "NOLINK"
 				}
-				return showMap(link.ByProducts)
+				return showMap(link.ByProducts, in.Script)
 			case "InTotoRun":
-				md, err := intoto.InTotoRun("c14", dir, nil, nil, args, intoto.Key{}, []string{"sha256"}, nil, nil, false, false, false)
+				md, err := intoto.InTotoRun("c14", dir, nil, nil, args, intoto.Key{}, []string{"sha256"}, nil, nil, in.LineNorm, false, false)
 				if err != nil {
 					return "ERR"
 				}
@@ -218,7 +251,7 @@ func runImpl(in input) string {
 				if !ok {
 					return "NOLINK"
 				}
-				return showMap(link.ByProducts)
+				return showMap(link.ByProducts, in.Script)
 			default:
 				m, err := intoto.RunCommand(args, dir)
 				if err != nil {
@@ -227,7 +260,7 @@ func runImpl(in input) string {
 				if m == nil {
 					return "NILMAP"
 				}
-				return showMap(m)
+				return showMap(m, in.Script)
 			}
 		})
 	}()
@@ -270,6 +303,14 @@ func oracle(in input) string {
 			if open[1] {
 				total[1] += n
 			}
+		case 'O': // literal bytes: every one of them is part of the output, whatever its value
+			if open[0] {
+				total[0] += int64(len(t)-1) / 2
+			}
+		case 'E':
+			if open[1] {
+				total[1] += int64(len(t)-1) / 2
+			}
 		case 'c':
 			if t[1] == 'o' {
 				open[0] = false
@@ -301,6 +342,10 @@ loop:
 			acts = append(acts, "CWrite SOut "+arg)
 		case 'e':
 			acts = append(acts, "CWrite SErr "+arg)
+		case 'O':
+			acts = append(acts, "CWrite SOut "+strconv.Itoa(len(arg)/2))
+		case 'E':
+			acts = append(acts, "CWrite SErr "+strconv.Itoa(len(arg)/2))
 		case 'c':
 			if arg == "o" {
 				acts = append(acts, "Close SOut")
@@ -516,6 +561,40 @@ func gen(r *lib.Rng, tier string) []gcase {
 	add("runinspections", "RunInspections", child, "plain", "o10", "e20")
 	add("runinspections", "RunInspections", child, "space", "e"+half, "o"+half, "x0")
 
+	// carriage returns, NUL and invalid UTF-8 in the output, with the lineNormalization flag of
+	// InTotoRun / RunInspections on and off: the by-products are the bytes the command wrote
+	// (the flag is about recorded artifacts)
+	hx := func(b string) string { return hex.EncodeToString([]byte(b)) }
+	crScripts := [][]string{
+		{"O" + hx("line1\r\nline2\r\n"), "E" + hx("warn\r\n")},                        // CRLF
+		{"O" + hx("progress 10%\rprogress 20%\rdone\n"), "E" + hx("a\rb")},              // lone CR
+		{"O" + hx("abc\r"), "O" + hx("\ndef"), "E" + hx("x\r"), "s20", "E" + hx("\n")},    // CRLF split over two writes
+		{"o1000", "O" + hx("\r"), "o1000", "e70000", "E" + hx("\r\n"), "e10"},            // CR between pattern chunks
+		{"O" + hx("end\r"), "E" + hx("\r")},                                             // CR as the very last byte
+		{"O" + hx("\x00\r\xff\r\n\xfe\x00\r"), "E" + hx("\xc3\r\x28\r\n\x00")},        // NUL / invalid UTF-8 next to CR
+		{"O" + hx("\r\r\n\n\r"), "E" + hx("\n\r")},                                     // nothing but line ends
+		{"o100000", "e100000"},                                                          // pattern bytes (contain CR, CRLF by chance)
+	}
+	for _, ln := range []bool{true, false} {
+		k := "line-endings-normalization-off"
+		if ln {
+			k = "line-endings-normalization-on"
+		}
+		for i, sc := range crScripts {
+			for _, api := range []string{I, "RunInspections", R} {
+				if api != I && i%2 == 1 && !ln {
+					continue // keep the quick tier small; InTotoRun gets every script both ways
+				}
+				d := []string{inh, "plain"}[i%2]
+				if api == "RunInspections" { // it records the run directory: never the harness' own cwd
+					d = []string{"space", "plain"}[i%2]
+				}
+				add(k, api, child, d, sc...)
+				out[len(out)-1].in.LineNorm = ln
+			}
+		}
+	}
+
 	// --- random interleavings ---
 	for i := 0; i < nRandom; i++ {
 		rr := r.Fork()
@@ -570,6 +649,7 @@ func gen(r *lib.Rng, tier string) []gcase {
 		}
 		dir := []string{inh, inh, "plain", "space"}[rr.Intn(4)]
 		add("random", api, child, dir, script...)
+		out[len(out)-1].in.LineNorm = rr.Chance(1, 2)
 	}
 	return out
 }
@@ -603,7 +683,7 @@ func trivial(in input) bool {
 		return false
 	}
 	for _, t := range in.Script {
-		if t[0] == 'o' || t[0] == 'e' || t[0] == 'k' {
+		if t[0] == 'o' || t[0] == 'e' || t[0] == 'O' || t[0] == 'E' || t[0] == 'k' {
 			return false
 		}
 	}
